@@ -145,6 +145,12 @@ def main():
 
 if __name__ == "__main__":
     try:
+        import faulthandler
+        import signal
+        faulthandler.register(signal.SIGUSR1, all_threads=True)      # `kill -USR1 <pid>` shows where a wedged check is
+    except Exception:  # noqa: BLE001
+        pass
+    try:
         sys.exit(main())
     except Infra as e:
         print(f"INFRA: {e}")
